@@ -212,6 +212,26 @@ theorem C20_echo_irrelevant (cfg : Cfg) (da : Nat → Fetch) (s : St) (r : Req) 
     getNextBatch cfg da s r = getNextBatch cfg da s { max := r.max } :=
   gnb_norm cfg da s r hid he
 
+/-- the state after a history of arbitrary calls and restarts -/
+def runSt (cfg : Cfg) : St → List Ev → St
+  | s, [] => s
+  | s, .restart :: es => runSt cfg (restart s) es
+  | s, .call da r :: es => runSt cfg (getNextBatch cfg da s r).st es
+
+/-- **The carry-over holds one entry at most** (for every caller): the DA layer is only scanned,
+and a push-back only made, when the pop has emptied the queue. -/
+theorem C20_carry_over_single_entry (cfg : Cfg) (evs : List Ev) :
+    (runSt cfg {} evs).queue.length ≤ 1 := by
+  suffices h : ∀ s : St, restart s = s → s.queue.length ≤ 1 → (runSt cfg s evs).queue.length ≤ 1 from
+    h {} rfl (by simp)
+  induction evs with
+  | nil => intro s _ h; exact h
+  | cons e es ih =>
+    intro s hs h
+    cases e with
+    | restart => simp only [runSt, hs]; exact ih s hs h
+    | call da r => exact ih _ (C20_restart_durable cfg da s r hs) (gnb_queue_le_one cfg da s r h)
+
 /-! ## Retrieval errors and heights from the future -/
 
 /-- **Errors / future heights: position not advanced past them.** A call never moves the scan
